@@ -70,6 +70,14 @@ def gen_cases(tier, seed):
                 params["gamma"] = 0.0 if not isinstance(params["gamma"], dict) else params["gamma"]
             spec = {"dims": [{"fam": "weibull", "params": {"alpha": 2.0, "beta": 1.5, "gamma": 0.0}}, {"fam": fam, "cond": 0, "params": params}]}
             cases.append({"kind": "joint", "spec": spec, "n": 20000, "seed": int(SEEDS[k % len(SEEDS)]), "constant_type": k})
+    # units as an input class
+    urng = np.random.default_rng([seed, 7, 77])
+    kj = 0
+    for cse in cases:
+        if cse["kind"] == "joint":
+            kj += 1
+            if kj % 4 == 2:
+                cse["units"] = [float(urng.choice([1e-6, 1e-3, 1e2, 1e4])) for _ in cse["spec"]["dims"]]
     return cases
 
 
@@ -179,6 +187,11 @@ def _uni_small(case, ctx):
 
 def _joint(case, ctx):
     spec, n, seed = case["spec"], case["n"], case["seed"]
+    if case.get("units"):
+        scaled = S.rescale_spec(spec, case["units"])
+        if scaled is not None:
+            spec = scaled
+            ctx.cls("units", "rescaled")
     model = S.build_virocon(spec)
     ref = S.RefModel(spec)
     d = model.n_dim
